@@ -12,6 +12,7 @@ from ..lib import core, storegen, storegen2
 from ..lib import walk as W
 from ..lib.core import Failure, Disagreement
 from ..lib.storeimpl2 import Impl2
+from ..extract import copyshape as _ex
 
 PROP = "C20"
 LEAN_MODULE = "NixModel.Props.C20"
@@ -20,6 +21,14 @@ THEOREMS = [
     "Nix.C20.copyIntoBlock_is_generic",
     "Nix.C20.copyProperty_is_generic",
     "Nix.C20.copySection_is_generic",
+    "Nix.C20.h5GroupCopy_source_is_model",
+    "Nix.C20.entryPoints_shape_ok",
+    "Nix.C20.entryPoints_kinds",
+    "Nix.C20.entry_point_source_is_generic",
+    "Nix.C20.copyBlock_source",
+    "Nix.C20.copyProperty_source",
+    "Nix.C20.copyIntoBlock_source",
+    "Nix.C20.copySection_source",
     "Nix.C20.copy_complete",
     "Nix.C20.internal_links",
     "Nix.C20.ids_kept",
@@ -70,6 +79,12 @@ MANIFEST = {
 }
 
 KNOWN_CLASS = "delete-hits-same-id-copy"
+
+
+def extract(repo):
+    """(T) the shape of H5Group.copy (rename, id regeneration, guards of the id visitor) and of the eight copy entry
+    points -> NixModel/Generated/CopyShape.lean; the *_source* theorems quantify over the generated values"""
+    return _ex.extract(repo)
 UUID_RE = re.compile(r"^[0-9a-f]{8}-[0-9a-f]{4}-4[0-9a-f]{3}-[89ab][0-9a-f]{3}-[0-9a-f]{12}$")
 
 
